@@ -65,6 +65,54 @@ def direct_tests(ctx):
         shutil.rmtree(d, ignore_errors=True)
 
 
+def raising_subscribers(ctx):
+    """subscribers that ACCEPT the call and then fail inside their own body (TypeError, KeyError, ValueError): however the library treats the
+    failure (lenient mode goes on with the next packet), each packet still invokes each subscriber exactly once"""
+    from replay_unpack.core.entity import Entity
+    rng = ctx.rng
+    ds = synth.sweep_defset(elem=('u', 1))
+    ds['ents']['Thing']['client_methods'] = [('named', [('amount', ('u', 2)), ('who', ('u', 1))], None, True), ('plain', [(None, ('u', 2)), (None, ('u', 1))], None, False)]
+    d = synth.write_defset(ds, rng)
+    try:
+        for exc in (TypeError, KeyError, ValueError):
+            pl = synth.make_player('wows', d); view = synth.LibView(pl)
+            saved = [dict(t) for t in (Entity._methods_subscriptions, Entity._properties_subscriptions, Entity._nested_properties_subscription)]
+            for t in (Entity._methods_subscriptions, Entity._properties_subscriptions, Entity._nested_properties_subscription): t.clear()
+            calls = []
+            def boom(tag):
+                def cb(entity, *a, **kw):
+                    calls.append((tag, a, tuple(sorted(kw.items()))))
+                    if exc is TypeError: None['x']
+                    raise exc('inside the subscriber')
+                return cb
+            try:
+                Entity.subscribe_method_call('Thing', 'named', boom('named'))
+                Entity.subscribe_method_call('Thing', 'plain', boom('plain'))
+                Entity.subscribe_property_change('Thing', 'pad', boom('pad'))
+                h = synth.History(rng, 'wows', view)
+                h.base_player()
+                eid = 500; props = view.exposed('Thing'); names = [n for n, _ in props]; ms = [m[0] for m in view.methods('Thing')]
+                h.emit('EntityCreate', struct.pack('<ihii', eid, view.type_index('Thing'), 3, 4) + bytes(24) + synth.binstream(b'\x00'), 'create')
+                for k in range(5):
+                    h.emit('EntityMethod', struct.pack('<II', eid, ms.index('named')) + synth.binstream(struct.pack('<HB', 100 + k, k)), 'call')
+                    h.emit('EntityMethod', struct.pack('<II', eid, ms.index('plain')) + synth.binstream(struct.pack('<HB', 200 + k, k)), 'call')
+                    h.emit('EntityProperty', struct.pack('<II', eid, names.index('pad')) + synth.binstream(struct.pack('<I', k)), 'update')
+                with common.time_limit(20): pl.play(h.stream(), False)
+            finally:
+                for t, sv in zip((Entity._methods_subscriptions, Entity._properties_subscriptions, Entity._nested_properties_subscription), saved):
+                    t.clear(); t.update(sv)
+            ctx.case(('raising-subscriber', exc.__name__), n=15)
+            want = []
+            for k in range(5): want += [('named', (), (('amount', 100 + k), ('who', k))), ('plain', (200 + k, k), ()), ('pad', (k,), ())]
+            if calls != want:
+                ctx.violation(dict(kind='direct', clause='a subscriber is invoked exactly once per matching packet (also when it fails inside its own body)', subscriber_raises=exc.__name__,
+                                   expected=[repr(x) for x in want[:6]], observed=[repr(x) for x in calls[:8]], expected_calls=len(want), observed_calls=len(calls),
+                                   how='subscribers on Thing.named (named arguments), Thing.plain (positional) and Thing.pad that record the call and then raise; 5 packets each, lenient play'))
+                return
+    finally:
+        shutil.rmtree(d, ignore_errors=True)
+
+
 def late_subscription(ctx):
     """the public API allows subscribing at any time: play the first part of a stream (entities get created), subscribe, play the rest;
     also re-subscribe a key after the entity exists.  Each later event must reach the subscriber of that moment exactly once."""
@@ -128,6 +176,7 @@ def run(ctx):
     worldcheck.run_histories(ctx, 'C07', n_defsets=6 if q else 40, hist_per_set=3, sizes=[60, 150], dialects=('wows', 'wot', 'wows126'), regs_mode='single',
                              fault_rate=0.0, strict_too=True, garbage_w=12)
     direct_tests(ctx)
+    raising_subscribers(ctx)
     late_subscription(ctx)
     recordings.payload_check(ctx, 'C07', quick_n=3)
 
